@@ -514,6 +514,67 @@ let handle_shared line kind toks =
     pfail (clip_long line) clause (Printf.sprintf "obs#%d:%s (got %s)" idx (clip want) (clip got))
   end
 
+(* ------------------------------------------------------------------ C07: packet connections *)
+
+let rec take k l = if k <= 0 then [] else match l with [] -> [] | x :: tl -> x :: take (k - 1) tl
+
+(* The reader hands out datagram k in Read k and discards what does not fit len(p). The model
+   (ScanBuffer.v) says how much room Scan offers to each Read; a Read that was offered less is a
+   property failure (C07_scan_offers_room), and the frames are those of the datagrams cut to the
+   room the MODEL offers. *)
+let handle_packets line kind toks =
+  let d_t, rest = split_bar [] toks in
+  let reads_t, events_t = split_bar [] rest in
+  let dgrams = lmap (fun t -> if t = "-" then [] else data_of_hex t) d_t in
+  let g = ref geom0 in
+  let short = ref None in
+  let big = ref false and multi = ref false and frag = ref false in
+  let rec walk k ds rs acc =
+    match ds with
+    | [] -> List.rev acc
+    | d :: ds' ->
+        let g' = match prepare !g with Some x -> x | None -> failwith ("model: the buffer cannot grow: " ^ clip line) in
+        let off = int_of_z (offered g') in
+        let len = llen d in
+        if len > off then big := true;
+        if len >= 32 then multi := true;
+        if len mod 16 <> 0 then frag := true;
+        let rs' =
+          match rs with
+          | r :: tl ->
+              let lp, _ = split_first ':' r in
+              let lenp = int_of_string ("0x" ^ lp) in
+              (* less room than modelled is a failure only where it costs bytes of the datagram *)
+              if lenp < off && lenp < len && !short = None then short := Some (k, lenp, off, len);
+              tl
+          | [] -> []
+        in
+        let n = min off len in
+        g := after_read g' (z_of_int n);
+        walk (k + 1) ds' rs' (RData (take n d) :: acc)
+  in
+  let rs = walk 0 dgrams reads_t [] @ if kind = "script" then [ REOF ] else [] in
+  let n = llen events_t in
+  let nn = nat_of_int n in
+  let spec = lmap event_str (spec_calls nn rs) in
+  if spec <> lmap event_str (receive_calls nn rs) then failwith ("model and specification differ (receive_calls): " ^ clip line);
+  note_case
+    (Printf.sprintf "G-%s%s%s%s" kind (if !multi then "-multiframe" else "") (if !frag then "-fragments" else "")
+       (if !big then "-oversize" else ""))
+    (clip_long line);
+  match !short with
+  | Some (k, lenp, off, len) ->
+      pfail (clip_long line)
+        "frames-lost-to-a-short-read-buffer"
+        (Printf.sprintf "read#%d: at least %d bytes of room (C07_scan_offers_room), datagram of %d bytes; got len(p)=%d" k off len lenp)
+  | None ->
+      if events_t <> spec then begin
+        let idx, got, want = first_diff 0 events_t spec in
+        pfail (clip_long line)
+          (if List.mem "P" events_t then "no-panic" else if List.mem "H" events_t then "termination" else "frames-of-the-datagram-stream")
+          (Printf.sprintf "call#%d:%s (got %s)" idx (clip want) (clip got))
+      end
+
 let handle line =
   match split_ws line with
   | "C" :: toks -> handle_concurrent line toks
@@ -525,6 +586,7 @@ let handle line =
   | "SF" :: n :: toks -> handle_script ~tag:"SF" line n toks
   | "XF" :: toks -> handle_transmit_seq ~tag:"XF" line toks
   | "U" :: kind :: toks -> handle_shared line kind toks
+  | "G" :: kind :: toks -> handle_packets line kind toks
   | "Q" :: toks -> handle_split line toks
   | "M" :: toks -> handle_multi line toks
   | "N" :: toks -> handle_multi_tx line toks
